@@ -163,7 +163,49 @@ def fam_unused_labels():
     return out
 
 
-FAMILIES = [fam_register_names, fam_too_complex, fam_mapfiles, fam_unknown_opcodes, fam_many_errors, fam_unused_labels]
+def fam_competing_intrinsics():
+    """a user mapfile gives every intrinsic kind a *second* provider (and the counting jump both of its forms): which
+    instruction implements `a = b + c`, `times(..)`, `if (..)`, `-x`, ... must not depend on the run"""
+    kinds = []      # (intrinsic, signature)
+    for ty, l in (("int", "S"), ("float", "f")):
+        for op in ("=", "+=", "-=", "*=", "/=", "%="):
+            kinds.append(('AssignOp(op="%s";type="%s")' % (op, ty), l + l))
+        for op in ("+", "-", "*", "/", "%"):
+            kinds.append(('BinOp(op="%s";type="%s")' % (op, ty), l + l + l))
+        for op in ("==", "!=", "<", "<=", ">", ">="):
+            kinds.append(('CondJmp(op="%s";type="%s")' % (op, ty), l + l + "ot"))
+        kinds.append(('UnOp(op="-";type="%s")' % ty, l + l))
+    for fn in ("sin", "cos", "sqrt"):
+        kinds.append(('UnOp(op="%s";type="float")' % fn, "ff"))
+    kinds += [("Jmp()", "ot"), ("CountJmp()", "Sot"), ('CountJmp(op=">")', "Sot"), ('CountJmp(op="!=")', "Sot")]
+    body = ("    $REG[%(i0)d] = $REG[%(i1)d] + $REG[%(i2)d];\n    $REG[%(i0)d] = ($REG[%(i1)d] - 3) * ($REG[%(i2)d] %% 7) / 2;\n"
+            "    $REG[%(i0)d] += 2;\n    $REG[%(i0)d] -= $REG[%(i1)d];\n    $REG[%(i0)d] *= 3;\n    $REG[%(i0)d] = -$REG[%(i1)d];\n"
+            "    %%REG[%(f0)d] = %%REG[%(f1)d] * 2.0 - %%REG[%(f0)d] / 4.0;\n    %%REG[%(f0)d] += 1.5;\n    %%REG[%(f0)d] = -%%REG[%(f1)d];\n"
+            "    %%REG[%(f0)d] = sin(%%REG[%(f1)d]) + cos(%%REG[%(f1)d]) + sqrt(%%REG[%(f1)d]);\n"
+            "    times(3) {\n        %(call)s\n    }\n    times($REG[%(i2)d] = 4) {\n        %(call)s\n    }\n"
+            "    while ($REG[%(i0)d] < 10) {\n        $REG[%(i0)d] += 1;\n    }\n    do {\n        %(call)s\n    } while (--$REG[%(i1)d]);\n"
+            "    if ($REG[%(i0)d] == 3) {\n        %(call)s\n    } else if ($REG[%(i0)d] != 4) {\n        %(call)s\n    } else if (%%REG[%(f0)d] <= 1.0) {\n        %(call)s\n    }\n"
+            "    if ($REG[%(i0)d] > $REG[%(i1)d] && $REG[%(i0)d] >= 2 || %%REG[%(f0)d] > 0.5) {\n        %(call)s\n    }\n"
+            "    loop {\n        %(call)s\n        break;\n    }\n")
+    out = []
+    for lang, magic, head, wrap, regs in (
+            ("anm12", "!anmmap", ANM_HEAD, "script script0 {\n%s}\n", dict(i0=10000, i1=10001, i2=10002, f0=10004, f1=10005, call="ins_1();")),
+            ("anm07", "!anmmap", None, None, None),
+            ("ecl07", "!eclmap", "script timeline0 {}\n", "void sub0() {\n%s}\n", dict(i0=10000, i1=10001, i2=10002, f0=10004, f1=10005, call="ins_1();"))):
+        if head is None:
+            continue
+        for which, base in (("dup", 3000), ("dup-reversed", 3000)):
+            order = kinds if which == "dup" else list(reversed(kinds))
+            mf = magic + "\n!ins_signatures\n" + "".join("%d %s\n" % (base + j, sig) for j, (_, sig) in enumerate(order))
+            mf += "!ins_intrinsics\n" + "".join("%d %s\n" % (base + j, intr) for j, (intr, _) in enumerate(order))
+            src = head + wrap % (body % regs)
+            out.append(dict(name="intrinsics-%s-%s-compile" % (which, lang), lang=lang, kind="compile", source=src, mapfile=mf, k=2))
+            out.append(dict(name="intrinsics-%s-%s-decompile" % (which, lang), lang=lang, kind="decompile", source=src, mapfile=mf, k=2))
+            out.append(dict(name="intrinsics-%s-%s-decompile-noblocks" % (which, lang), lang=lang, kind="decompile", source=src, mapfile=mf, k=2, opts=["--no-blocks"]))
+    return out
+
+
+FAMILIES = [fam_register_names, fam_too_complex, fam_mapfiles, fam_unknown_opcodes, fam_many_errors, fam_unused_labels, fam_competing_intrinsics]
 
 
 def c01_sample(chk, quick):
